@@ -313,6 +313,9 @@ impl Check for C04 {
         if idx < n {
             return crate::model::exhaustive_scn(idx, len);
         }
+        if idx % 400 == 7 {
+            return Some(gen_cycles(rng));
+        }
         // then random: even indices fault-free, odd indices fault-injecting
         let faults = idx % 2 == 1;
         Some(e1::gen_random(rng, &GenCfg { stalls: true, faults, max_ops: if idx % 5 == 0 { 40 } else { 12 }, max_senders: 3, allow_drop: true, kill_lag: faults }))
@@ -544,6 +547,14 @@ pub fn gen_graceful_burst(rng: &mut Rng, faults: bool, slow_death: bool) -> E1Sc
         let _ = sigs.fresh();
     }
     steps.push(Step { gap: *rng.pick(&[0u64, 0, 1, 5, 50]), op: g, waiters: rng.range(0, 3) as u8, inline: false, cancel_after: None, late_clone: None });
+    // one in 12: a flood of high-priority controls (to_wait) during the grace period, then normal controls, then a few
+    // more to_wait - what only a long streak of one kind of control brings out
+    let flood = rng.chance(1, 12);
+    if flood {
+        for _ in 0..rng.range(8, 40) {
+            steps.push(Step { gap: *rng.pick(&[0u64, 0, 1]), op: Op::ToWait, waiters: rng.below(2) as u8, inline: false, cancel_after: None, late_clone: None });
+        }
+    }
     let n_after = rng.range(0, 5);
     let mut second: Vec<Step> = Vec::new();
     for _ in 0..n_after {
@@ -563,9 +574,18 @@ pub fn gen_graceful_burst(rng: &mut Rng, faults: bool, slow_death: bool) -> E1Sc
             steps.push(st);
         }
     }
+    if flood {
+        for _ in 0..rng.range(1, 3) {
+            steps.push(Step { gap: *rng.pick(&[0u64, 1]), op: Op::ToWait, waiters: rng.below(2) as u8, inline: false, cancel_after: None, late_clone: None });
+        }
+    }
     let mut children: Vec<ChildSpec> = (0..rng.range(1, 3)).map(|_| e1::child_class(rng.below(6), rng)).collect();
+    if flood {
+        // the process has to outlive the flood for the grace period to matter
+        children[0] = ChildSpec { on_signal: if rng.chance(1, 2) { SigReact::Ignore } else { SigReact::Exit(*rng.pick(&[50u64, 100, 1000])) }, ..Default::default() };
+    }
     // bias the first child so that its reaction collides with the grace period
-    if grace != u64::MAX && rng.chance(1, 2) {
+    if grace != u64::MAX && !flood && rng.chance(1, 2) {
         children[0] = match rng.below(4) {
             0 => ChildSpec { on_signal: SigReact::Exit(grace), ..Default::default() },
             1 => ChildSpec { on_signal: SigReact::Exit(grace.saturating_sub(1)), ..Default::default() },
@@ -1347,6 +1367,45 @@ pub fn gen_hi_over_normal(rng: &mut Rng) -> E1Scn {
         senders: vec![steps],
         drop_handles: false,
     }
+}
+
+/// One job through a great many runs: (start, stop), restart, or start + natural exit, repeated 40-300 times, then a
+/// few ordinary controls. What a counter, an index or a buffer does at its 256th use.
+pub fn gen_cycles(rng: &mut Rng) -> E1Scn {
+    let n = *rng.pick(&[40u64, 130, 260, 300]);
+    let body = rng.below(3);
+    let mut steps: Vec<Step> = Vec::new();
+    let st = |gap: u64, op: Op| Step { gap, op, waiters: 0, inline: false, cancel_after: None, late_clone: None };
+    let self_exit = if body == 2 { Some(1) } else { None };
+    for _ in 0..n {
+        match body {
+            0 => {
+                steps.push(st(3, Op::Start));
+                steps.push(st(3, Op::Stop));
+            }
+            1 => steps.push(st(3, Op::Restart)),
+            _ => steps.push(st(3, Op::Start)),
+        }
+    }
+    // then: start, and start again while it runs; a probe; a try-restart
+    let mut tail = vec![st(3, Op::Start), st(3, Op::Start), st(3, Op::Run), st(3, Op::TryRestart), st(3, Op::Run)];
+    for t in tail.iter_mut() {
+        t.waiters = 1;
+    }
+    steps.extend(tail);
+    let child = ChildSpec { self_exit, on_signal: SigReact::Exit(0), ..Default::default() };
+    // the runs after the cycles are long-lived
+    let last = ChildSpec { on_signal: SigReact::Exit(0), ..Default::default() };
+    let mut children: Vec<ChildSpec> = Vec::new();
+    // (child specs are indexed by spawn number, the last one is reused for all later spawns)
+    let cycles_spawns = n as usize;
+    if self_exit.is_some() {
+        children = vec![child; cycles_spawns];
+        children.push(last);
+    } else {
+        children.push(last);
+    }
+    E1Scn { family: "cycles".into(), grouped: false, session: false, children, spawn_fail: vec![], senders: vec![steps], drop_handles: false }
 }
 
 pub fn gen_order(rng: &mut Rng) -> E1Scn {
